@@ -280,17 +280,34 @@ def run(chk, repo, tier):
         body = [s for s in f.node.body if not (isinstance(s, ast.Expr) and isinstance(s.value, ast.Constant))]
         chk.instance(K2, f'TransactionalModelDatabase.{name} wraps {want}().{name}')
         ok = False
-        if len(body) == 1 and isinstance(body[0], ast.With) and len(body[0].items) == 1:
-            it = body[0].items[0]
+        withs = [s for s in body if isinstance(s, ast.With)]
+        # statements around the with-block may only bind locals / return (e.g. `action = methodcaller(name, ...)`)
+        plain = all(isinstance(s, (ast.With, ast.Assign, ast.AnnAssign, ast.Return, ast.Pass)) for s in body)
+        if len(withs) == 1 and plain and len(withs[0].items) == 1:
+            w = withs[0]
+            it = w.items[0]
             c = it.context_expr
             if isinstance(c, ast.Call) and isinstance(c.func, ast.Attribute) and c.func.attr == want \
                     and isinstance(c.func.value, ast.Name) and c.func.value.id == 'self' \
                     and isinstance(it.optional_vars, ast.Name):
                 v = it.optional_vars.id
-                inner = [x for x in ast.walk(body[0]) if isinstance(x, ast.Call)
-                         and isinstance(x.func, ast.Attribute) and isinstance(x.func.value, ast.Name)
-                         and x.func.value.id == v]
-                ok = len(inner) == 1 and inner[0].func.attr == name
+                # v.<name>(...) or methodcaller('<name>', ...)(v) (the caller object possibly bound to a local first)
+                binds = {s.targets[0].id: s.value for s in body if isinstance(s, ast.Assign)
+                         and isinstance(s.targets[0], ast.Name)}
+                invoked = []
+                for x in ast.walk(w):
+                    if not isinstance(x, ast.Call):
+                        continue
+                    if isinstance(x.func, ast.Attribute) and isinstance(x.func.value, ast.Name) and x.func.value.id == v:
+                        invoked.append(x.func.attr)
+                    elif len(x.args) == 1 and isinstance(x.args[0], ast.Name) and x.args[0].id == v:
+                        fn = binds.get(x.func.id) if isinstance(x.func, ast.Name) else x.func
+                        if isinstance(fn, ast.Call) and (call_name(fn) == 'methodcaller') and fn.args \
+                                and isinstance(fn.args[0], ast.Constant):
+                            invoked.append(fn.args[0].value)
+                        else:
+                            invoked.append('<unknown callable>')
+                ok = invoked == [name]
         if not ok:
             chk.violation(K2, base.rel, f.qualname, unparse(f.node.body[-1]),
                           f'{name} does not delegate to the same-named method inside `with self.{want}(...)`',
